@@ -209,5 +209,7 @@ theorem refinesL3 (nt : Bool) (d0 d1 d2 : Nat) :
   indexes := by simp [kindL3, kindSpec, idx3_eq]
   keys := by simp [kindL3, kindSpec, idx3_eq]
   len := rfl
+  resumeIdx := by simp [kindL3, kindSpec, idx3_eq, listResume_eq]
+  resumeKeys := by simp [kindL3, kindSpec, idx3_eq, listResume_eq]
 
 end SLV.MArr
